@@ -960,16 +960,19 @@ func (n *node) Kill(pid gen.PID) error {
 	}
 
 	p := value.(*process)
+	lib.VerifPoint(p, "kill:swapZ")
 	state := atomic.SwapInt32(&p.state, int32(gen.ProcessStateZombee))
 	switch state {
 	case int32(gen.ProcessStateWaitResponse), int32(gen.ProcessStateRunning):
 		// do not unregister process until its goroutine stopped
 		return nil
 	case int32(gen.ProcessStateTerminated):
+		lib.VerifPoint(p, "kill:store")
 		atomic.StoreInt32(&p.state, int32(gen.ProcessStateTerminated))
 		return nil
 	}
 
+	lib.VerifPoint(p, "kill:swapT")
 	old := atomic.SwapInt32(&p.state, int32(gen.ProcessStateTerminated))
 	if old == int32(gen.ProcessStateTerminated) {
 		return nil
@@ -977,7 +980,10 @@ func (n *node) Kill(pid gen.PID) error {
 	// unregister process and stuff belonging to it
 	n.unregisterProcess(p, gen.TerminateReasonKill)
 
+	lib.VerifPoint(p, "kill:go")
 	go func() {
+		defer lib.VerifDone()
+		lib.VerifPoint(p, "kill:terminate")
 		if lib.Recover() {
 			defer func() {
 				if rcv := recover(); rcv != nil {
@@ -1731,6 +1737,7 @@ func (n *node) spawn(factory gen.ProcessFactory, options gen.ProcessOptionsExtra
 	}
 
 	// register process and switch it to the sleep state
+	lib.VerifPoint(p, "spawn:storeSleep")
 	p.state = int32(gen.ProcessStateSleep)
 	n.processes.Store(p.pid, p)
 
